@@ -140,6 +140,18 @@ class Opaque:
         return "<opaque %s>" % self.tag
 
 
+class Arb:
+    """a value of a location the contracts do not model (e.g. an attribute added to a class): arbitrary.
+    Comparisons with it are arbitrary booleans; nothing else is known about it."""
+    __slots__ = ("tag",)
+
+    def __init__(self, tag):
+        self.tag = tag
+
+    def __repr__(self):
+        return "<arbitrary %s>" % self.tag
+
+
 def is_symbool(x):
     return z3.is_expr(x) and x.sort() == BoolS
 
